@@ -5,6 +5,7 @@ import (
 	"encoding/json"
 	"fmt"
 	"os"
+	"reflect"
 	"regexp"
 	"runtime/debug"
 	"sort"
@@ -113,7 +114,7 @@ func (k *c13Kind) tok(n int) string {
 	if n >= c13ExoBase {
 		// two JSON texts may denote one value (MaxInt64 and MaxInt64+1 are the same float64)
 		for i, e := range c13Exotics {
-			if e.want == c13Exotics[n-c13ExoBase].want {
+			if reflect.DeepEqual(e.want, c13Exotics[n-c13ExoBase].want) {
 				return e.class + strconv.Itoa(c13ExoBase+i)
 			}
 		}
@@ -190,6 +191,10 @@ var c13Exotics = []c13Exo{
 	c13MkExo("s", c13Q("2024-05-01"), "", `"2024-05-01"`, `'2024-05-01'`),
 	c13MkExo("s", c13Q("18446744073709551615"), "", `"18446744073709551615"`),
 	c13MkExo("s", c13Q(""), "", `""`, `''`),
+	// the same scalars one level down: inside a map / a list (written in flow style)
+	c13MkExo("s", `{"limit":18446744073709551615,"since":"2024-05-01T00:00:00Z"}`,
+		"{limit: 18446744073709551615, since: 2024-05-01}", "{limit: 0xFFFFFFFFFFFFFFFF, since: 2024-05-01T00:00:00Z}", ""),
+	c13MkExo("s", `[1e+21,31,true,"yes"]`, `[1e+21, 0x1F, True, "yes"]`, `[1E21, 31, true, 'yes']`, ""),
 	// very long strings (the second one is folded by the YAML emitter)
 	c13MkExo("s", c13Q(strings.Repeat("x", 700))),
 	c13MkExo("s", c13Q(strings.TrimSpace(strings.Repeat("lorem ipsum dolor ", 40)))),
@@ -213,30 +218,48 @@ func (g *c13Gen) exo(k *c13Kind) int {
 // c13ExoTok: the token of a decoded value that is an exotic scalar - only if it has a Go type the
 // JSON world knows (float64, int64 after a trip through the API machinery, string, bool).
 func c13ExoTok(v any) (string, bool) {
+	n, ok := c13JSONNorm(v)
+	if !ok {
+		return "", false
+	}
 	for i, e := range c13Exotics {
-		hit := false
-		switch w := e.want.(type) {
-		case float64:
-			switch x := v.(type) {
-			case float64:
-				hit = x == w
-			case int64:
-				hit = float64(x) == w
-			}
-		case string:
-			if x, ok := v.(string); ok {
-				hit = x == w
-			}
-		case bool:
-			if x, ok := v.(bool); ok {
-				hit = x == w
-			}
-		}
-		if hit {
+		if reflect.DeepEqual(n, e.want) {
 			return e.class + strconv.Itoa(c13ExoBase+i), true
 		}
 	}
 	return "", false
+}
+
+// c13JSONNorm: v with every int64 (integers after a trip through the API machinery) as float64;
+// false when v holds a Go type the JSON world does not know (int, uint64, time.Time, ...).
+func c13JSONNorm(v any) (any, bool) {
+	switch x := v.(type) {
+	case float64, string, bool:
+		return v, true
+	case int64:
+		return float64(x), true
+	case map[string]any:
+		o := map[string]any{}
+		for k, e := range x {
+			n, ok := c13JSONNorm(e)
+			if !ok {
+				return nil, false
+			}
+			o[k] = n
+		}
+		return o, true
+	case []any:
+		o := make([]any, len(x))
+		for i, e := range x {
+			n, ok := c13JSONNorm(e)
+			if !ok {
+				return nil, false
+			}
+			o[i] = n
+		}
+		return o, true
+	}
+	return nil, false
 }
 
 var c13Placeholder = regexp.MustCompile(`XQ([0-9]+)S([0-9]+)QX`)
@@ -1686,6 +1709,30 @@ func runC13(r *Run) {
 		}
 	}
 	c13OperatorCorpus(r, 13)
+	r.One(17, func(c *Case, rng *Rng) {
+		// scalars the decoders type differently, in all three kinds of inline payload
+		dep := c13Pool[4]
+		big, date, nested := c13ExoBase+0, c13ExoBase+10, c13ExoBase+24
+		o := c13Obj{1: big, 2: date}
+		docs := []c13Doc{
+			{valid: true, inline: true, family: "create:CreateOrUpdate", key: dep.id, locks: true,
+				m:    map[string]any{"operation": "CreateOrUpdate", "object": c13Manifest(dep, dep.kind.apiVersion, o)},
+				desc: fmt.Sprintf("C/01/%d/1/%s", dep.id, c13ObjTok(dep.kind, o))},
+			{valid: true, inline: true, family: "patch:m", key: dep.id,
+				m: map[string]any{"operation": "MergePatch", "apiVersion": "apps/v1", "kind": "Deployment", "namespace": dep.ns, "name": dep.name,
+					"mergePatch": map[string]any{"spec": map[string]any{"revisionHistoryLimit": dep.kind.val(nested)}}},
+				desc: fmt.Sprintf("P/m/%d/1/0/00/set.3.%s", dep.id, dep.kind.tok(nested))},
+			{valid: true, inline: true, family: "patch:j", key: dep.id,
+				m: map[string]any{"operation": "JSONPatch", "apiVersion": "apps/v1", "kind": "Deployment", "namespace": dep.ns, "name": dep.name,
+					"jsonPatch": []any{map[string]any{"op": "add", "path": "/spec/replicas", "value": dep.kind.val(date)}}},
+				desc: fmt.Sprintf("P/j/%d/1/0/00/set.1.%s", dep.id, dep.kind.tok(date))},
+		}
+		c.Desc = "corpus: an integer above MaxInt64, an unquoted timestamp and a nested map of both in an inline object / mergePatch / jsonPatch (existing object)"
+		c.Nontrivial = true
+		c.Note("corpus")
+		init := map[int]c13Obj{dep.id: {1: 1}}
+		c13RunCase(c, rng, init, c13InitTok(init), docs, false)
+	})
 	n := r.N(400, 6000)
 	r.Cases(100, n, 64, c13Random)
 	// operator-level: real hook processes, Hook.Run, handleRunHook (hook succeeded / failed), two
